@@ -200,24 +200,224 @@ theorem down_heap (n f : Nat) : ∀ (st : State) (i : Nat) (top : Bool), n ≤ i
           · exact hD.1 c hc0 hcn q (Or.inr rfl)
         · exact IH.2 e
 
-theorem fix_heap (st : State) (i : Nat) (hi : i < st.heap.size)
-    (h : DInv st i st.heap.size true) : HeapOrd (fix st i) st.heap.size := by
-  unfold fix
-  simp only
-  have D := down_heap st.heap.size st.heap.size st i true (by omega) (Nat.le_refl _) h
-  have hge := down_ge st.heap.size st i st.heap.size
-  generalize down st i st.heap.size st.heap.size = r at D hge
+/-- `if !down(h, i, n) { up(h, i) }` (the body of `heap.Fix` and of `heap.Remove`) -/
+theorem fixn_heap (st : State) (i n : Nat) (hi : i < n) (hn : n ≤ st.heap.size)
+    (h : DInv st i n true) :
+    HeapOrd (if (down st i n n).2 > i then (down st i n n).1
+      else up (down st i n n).1 i (i + 1)) n := by
+  have D := down_heap n n st i true (by omega) hn h
+  have hge := down_ge n st i n
+  generalize down st i n n = r at D hge
   split
   · exact D.2 (by omega)
   · have e : r.2 = i := by omega
     obtain ⟨e1, hch⟩ := D.1 e
     rw [e1]
-    apply up_heap _ _ st i (by omega) hi (Nat.le_refl _)
+    apply up_heap _ _ st i (by omega) hi hn
     constructor
     · intro c hc0 hcn hci
       by_cases q : (c - 1) / 2 = i
       · exact hch c hc0 hcn q
       · exact h.1 c hc0 hcn q (Or.inl hci)
     · exact h.2
+
+theorem fix_heap (st : State) (i : Nat) (hi : i < st.heap.size)
+    (h : DInv st i st.heap.size true) : HeapOrd (fix st i) st.heap.size := by
+  unfold fix
+  simp only
+  exact fixn_heap st i st.heap.size hi (Nat.le_refl _) h
+
+/-- `down(h, 0, n)` on a heap whose root was replaced -/
+theorem down_heap0 (st : State) (n : Nat) (hn : n ≤ st.heap.size) (h : DInv st 0 n true) :
+    HeapOrd (down st 0 n n).1 n := by
+  have D := down_heap n n st 0 true (by omega) hn h
+  generalize down st 0 n n = r at D
+  by_cases e : r.2 = 0
+  · obtain ⟨e1, hch⟩ := D.1 e
+    rw [e1]
+    intro c hc0 hcn
+    by_cases q : (c - 1) / 2 = 0
+    · exact hch c hc0 hcn q
+    · exact h.1 c hc0 hcn q (Or.inl (by omega))
+  · exact D.2 e
+
+/-! ### the composite operations -/
+
+theorem heapOrd_congr {st st' : State} {n : Nat} (hk : ∀ x, x < n → kv st' x = kv st x)
+    (ho : HeapOrd st n) : HeapOrd st' n := by
+  intro c hc0 hcn
+  show le64 (kv st' ((c - 1) / 2)) (kv st' c)
+  rw [hk c hcn, hk _ (by omega)]
+  exact ho c hc0 hcn
+
+theorem heapOrd_mono {st : State} {n m : Nat} (hm : m ≤ n) (ho : HeapOrd st n) : HeapOrd st m :=
+  fun c hc0 hcm => ho c hc0 (by omega)
+
+theorem fixQval_heap (st : State) (h : WF st) (ho : HeapOrd st st.heap.size) (id : Nat) (it : Item)
+    (hit : st.items.find id = some it) (v : T64) :
+    HeapOrd (fixQval st id v it.qidx) (fixQval st id v it.qidx).heap.size := by
+  rw [(fixQval_spec st h id it hit v).2.1]
+  have hq : it.qidx < st.heap.size := (h.bwd id it.qidx (by unfold pos; rw [hit]; rfl)).1
+  have hk : ∀ x, x < st.heap.size → x ≠ it.qidx →
+      kv { st with items := setQval st.items id v } x = kv st x :=
+    fun x hx hne => kv_modify_ne st h id _ it hit x hx hne
+  unfold fixQval
+  apply fix_heap { st with items := setQval st.items id v } it.qidx hq
+  constructor
+  · intro c hc0 hcn hq1 hc1
+    have hcn' : c < st.heap.size := hcn
+    have hc2 : c ≠ it.qidx := by
+      rcases hc1 with e | e
+      · exact e
+      · cases e
+    show le64 (kv { st with items := setQval st.items id v } ((c - 1) / 2))
+      (kv { st with items := setQval st.items id v } c)
+    rw [hk c hcn' hc2, hk _ (by omega) hq1]
+    exact ho c hc0 hcn'
+  · intro c hc0 hcn hpar hq0
+    have hcn' : c < st.heap.size := hcn
+    rw [hk c hcn' (by omega), hk _ (by omega) (by omega)]
+    have a : le64 (kv st ((it.qidx - 1) / 2)) (kv st it.qidx) := ho it.qidx hq0 hq
+    have b : le64 (kv st ((c - 1) / 2)) (kv st c) := ho c hc0 hcn'
+    rw [hpar] at b
+    exact le64_trans a b
+
+theorem push_heap (st : State) (h : WF st) (ho : HeapOrd st st.heap.size) (id : Nat) (it : Item)
+    (hnone : st.items.find id = none) :
+    HeapOrd (push { st with items := (id, it) :: st.items } id) (st.heap.size + 1) := by
+  unfold push
+  simp only
+  have hkold : ∀ i, i < st.heap.size → hkey st i ≠ id := by
+    intro i hi e
+    have := h.fwd i hi
+    rw [e] at this; unfold pos at this; rw [hnone] at this; cases this
+  have hk : ∀ x, x < st.heap.size →
+      kv { items := setQidx ((id, it) :: st.items) id st.heap.size, heap := st.heap.push id } x
+        = kv st x := by
+    intro x hx
+    have hkx : hkey { items := setQidx ((id, it) :: st.items) id st.heap.size,
+        heap := st.heap.push id } x = hkey st x := by
+      unfold hkey
+      simp only [Array.getD_eq_getD_getElem?, Array.getElem?_push]
+      have : ¬ x = st.heap.size := by omega
+      simp [this]
+    unfold kv
+    rw [hkx]
+    show qv (setQidx ((id, it) :: st.items) id st.heap.size) (hkey st x) = qv st.items (hkey st x)
+    rw [← qv_same (same_setQidx ((id, it) :: st.items) id st.heap.size)]
+    unfold qv
+    rw [Map.find_cons, if_neg (Ne.symm (hkold x hx))]
+  apply up_heap (st.heap.size + 1) (st.heap.size + 1) _ st.heap.size (by omega) (by omega)
+    (by simp)
+  constructor
+  · intro c hc0 hcn hne
+    exact heapOrd_congr hk ho c hc0 (by omega)
+  · intro c hc0 hcn hpar hpos
+    omega
+
+/-- removing the last heap slot together with its map entry -/
+theorem heapOrd_dropLast (st : State) (h : WF st) (k : Nat)
+    (hk : hkey st (st.heap.size - 1) = k) (n : Nat) (hn : n ≤ st.heap.size - 1)
+    (ho : HeapOrd st n) : HeapOrd { items := st.items.erase k, heap := st.heap.pop } n := by
+  refine heapOrd_congr ?_ ho
+  intro x hx
+  have hx' : x < st.heap.size - 1 := by omega
+  have hkx : hkey { items := st.items.erase k, heap := st.heap.pop } x = hkey st x := by
+    unfold hkey
+    simp only [Array.getD_eq_getD_getElem?, Array.getElem?_pop, hx', if_true]
+  have hne : ¬ k = hkey st x := by
+    intro e
+    rw [← hk] at e
+    have := h.inj (by omega) (by omega) e
+    omega
+  unfold kv
+  rw [hkx]
+  show qv (st.items.erase k) (hkey st x) = qv st.items (hkey st x)
+  unfold qv
+  rw [Map.find_erase _ h.nodup, if_neg hne]
+
+theorem popMin_heap (st : State) (h : WF st) (hpos : 0 < st.heap.size)
+    (ho : HeapOrd st st.heap.size) : HeapOrd (popMin st).1 (st.heap.size - 1) := by
+  unfold popMin
+  simp only
+  have hnl : st.heap.size - 1 < st.heap.size := by omega
+  have k1 := keeps_swap st h 0 (st.heap.size - 1) hpos hnl
+  have k2 := k1.trans (keeps_down (st.heap.size - 1) _ 0 (st.heap.size - 1) k1.wf
+    (by rw [k1.size]; omega))
+  have hD : DInv (swap st 0 (st.heap.size - 1)) 0 (st.heap.size - 1) true := by
+    constructor
+    · intro c hc0 hcn hq _
+      show le64 (kv (swap st 0 (st.heap.size - 1)) ((c - 1) / 2))
+        (kv (swap st 0 (st.heap.size - 1)) c)
+      rw [kv_swap_o st 0 _ c hpos hnl (by omega) (by omega),
+        kv_swap_o st 0 _ _ hpos hnl hq (by omega)]
+      exact ho c hc0 (by omega)
+    · intro c _ _ _ h0; omega
+  have H := down_heap0 _ _ (by rw [size_swap]; omega) hD
+  generalize (down (swap st 0 (st.heap.size - 1)) 0 (st.heap.size - 1) (st.heap.size - 1)).1
+    = st1 at k2 H
+  have hs : st1.heap.size = st.heap.size := k2.size
+  rw [← hs] at H ⊢
+  exact heapOrd_dropLast st1 k2.wf _ rfl _ (Nat.le_refl _) H
+
+theorem remove_heap (st : State) (h : WF st) (ho : HeapOrd st st.heap.size) (id : Nat) (it : Item)
+    (hit : st.items.find id = some it) :
+    HeapOrd (remove st it.qidx id) (st.heap.size - 1) := by
+  obtain ⟨hq, hkq⟩ := h.bwd id it.qidx (by unfold pos; rw [hit]; rfl)
+  have hpos : 0 < st.heap.size := by omega
+  have hn : st.heap.size - 1 < st.heap.size := by omega
+  -- the state before the final Pop
+  have key : ∃ st1, (remove st it.qidx id) = { items := st1.items.erase id, heap := st1.heap.pop } ∧
+      Keeps st st1 ∧ hkey st1 (st.heap.size - 1) = id ∧ HeapOrd st1 (st.heap.size - 1) := by
+    unfold remove
+    simp only
+    split
+    · rename_i hne
+      have hlt : it.qidx < st.heap.size - 1 := by omega
+      have k1 := keeps_swap st h it.qidx (st.heap.size - 1) hq hn
+      have hk1 : hkey (swap st it.qidx (st.heap.size - 1)) (st.heap.size - 1) = id := by
+        rw [hkey_swap st _ _ _ hq hn]; simp [hkq]
+      have k2 := keeps_down (st.heap.size - 1) _ it.qidx (st.heap.size - 1) k1.wf
+        (by rw [k1.size]; omega)
+      have hk2 : hkey (down (swap st it.qidx (st.heap.size - 1)) it.qidx (st.heap.size - 1)
+          (st.heap.size - 1)).1 (st.heap.size - 1) = id := by
+        rw [hkey_down_ge _ _ _ _ _ (by rw [size_swap]; omega) (Nat.le_refl _)]; exact hk1
+      have hD : DInv (swap st it.qidx (st.heap.size - 1)) it.qidx (st.heap.size - 1) true := by
+        constructor
+        · intro c hc0 hcn hq1 hc1
+          have hc2 : c ≠ it.qidx := by
+            rcases hc1 with e | e
+            · exact e
+            · cases e
+          show le64 (kv (swap st it.qidx (st.heap.size - 1)) ((c - 1) / 2))
+            (kv (swap st it.qidx (st.heap.size - 1)) c)
+          rw [kv_swap_o st _ _ c hq hn hc2 (by omega),
+            kv_swap_o st _ _ _ hq hn hq1 (by omega)]
+          exact ho c hc0 (by omega)
+        · intro c hc0 hcn hpar hq0
+          rw [kv_swap_o st _ _ c hq hn (by omega) (by omega),
+            kv_swap_o st _ _ _ hq hn (by omega) (by omega)]
+          have a : le64 (kv st ((it.qidx - 1) / 2)) (kv st it.qidx) := ho it.qidx hq0 hq
+          have b : le64 (kv st ((c - 1) / 2)) (kv st c) := ho c hc0 (by omega)
+          rw [hpar] at b
+          exact le64_trans a b
+      have H := fixn_heap _ it.qidx (st.heap.size - 1) hlt (by rw [size_swap]; omega) hD
+      split
+      · rename_i hgt
+        rw [if_pos hgt] at H
+        exact ⟨_, rfl, k1.trans k2, hk2, H⟩
+      · rename_i hgt
+        rw [if_neg hgt] at H
+        have k3 := keeps_up (it.qidx + 1) _ it.qidx k2.wf (by rw [k2.size, k1.size]; exact hq)
+        refine ⟨_, rfl, (k1.trans k2).trans k3, ?_, H⟩
+        rw [hkey_up_gt _ _ _ _ (by rw [k2.size, k1.size]; exact hq) hlt]; exact hk2
+    · rename_i heq
+      have heq' : st.heap.size - 1 = it.qidx := by omega
+      exact ⟨st, rfl, Keeps.refl h, by rw [heq']; exact hkq, heapOrd_mono (by omega) ho⟩
+  obtain ⟨st1, e, k, hk, H⟩ := key
+  rw [e]
+  have hs : st1.heap.size = st.heap.size := k.size
+  rw [← hs] at hk H ⊢
+  exact heapOrd_dropLast st1 k.wf id hk _ (Nat.le_refl _) H
 
 end ScionTime.Server
